@@ -263,7 +263,7 @@ impl Check for C20 {
     }
 
     fn run_unit(&self, tier: Tier, unit: &Value, out: &mut UnitResult) {
-        for senders in sequences(tier.pick(3, 4)) {
+        for senders in sequences(tier.pick(4, 5)) {
             crate::pool::crumb(|| format!("authorization layer, senders {senders:?}"));
             let n = senders.len();
             for po in permutations(n) {
